@@ -655,6 +655,13 @@ func checkC11(ix *index, add addFn) {
 func checkC11Reconn(ix *index, add addFn) {
 	sc := ix.sc
 	cs := ix.causes()
+	// Disconnect of the reconnecting client returns (C09's rule, read as a
+	// statement about the blocking call)
+	checkC09(ix, func(rule, detail string, feat map[string]string) {
+		if rule == "disconnect-returns" {
+			add("returns", detail, map[string]string{"call": "reconnect.Disconnect", "via": "C09"})
+		}
+	})
 	// nothing is left running after Disconnect has returned: every transport the
 	// client opened has been closed by then (judged at the end of the run)
 	if ix.judge >= 0 && ix.complete && ix.discAt >= 0 {
@@ -672,6 +679,14 @@ func checkC11Reconn(ix *index, add addFn) {
 				phase := "other"
 				if ix.discAt > c.dialAt && (c.connack < 0 || ix.discAt < c.connack) {
 					phase = "during-establishment"
+				} else {
+					// the DISCONNECT task is only queued when Disconnect returns: a request
+					// on this connection that is never answered keeps it from running
+					for j := 0; j < ix.end(); j++ {
+						if q := &ix.tr[j]; (q.Kind == "dropb2c" || q.Kind == "dropc2b") && q.Conn == k {
+							phase = "behind-unanswered-request"
+						}
+					}
 				}
 				add("left-running", fmt.Sprintf("conn %d is still open when the run is judged although Disconnect returned nil at t=%dns (Disconnect was called at t=%dns, the connection was dialled at t=%dns)", k, ix.tr[discRet].T, ix.tr[ix.discAt].T, ix.tr[c.dialAt].T), map[string]string{"phase": phase})
 			}
@@ -719,7 +734,16 @@ func checkC11Reconn(ix *index, add addFn) {
 						break
 					}
 				}
-				add("dead-link", fmt.Sprintf("conn %d: the write of %s failed at t=%dns and the read side stayed silent; the client had not closed the transport when the run was judged", r.Conn, what, r.T), map[string]string{"pkt": what})
+				feat := map[string]string{"pkt": what}
+				if what == "PINGREQ" {
+					feat["by"] = "keepalive"
+					for j := i + 1; j < ix.end() && ix.tr[j].T == r.T; j++ {
+						if q := &ix.tr[j]; q.Kind == "txfail" && q.Conn == r.Conn && !isKeepAlivePing(ix, j) {
+							feat["by"] = "application"
+						}
+					}
+				}
+				add("dead-link", fmt.Sprintf("conn %d: the write of %s failed at t=%dns and the read side stayed silent; the client had not closed the transport when the run was judged", r.Conn, what, r.T), feat)
 			}
 		}
 	}
@@ -790,6 +814,13 @@ func checkC11Reconn(ix *index, add addFn) {
 			// without a deadline nothing is demanded here: Disconnect's context is
 			// alive and whether the loop can observe the request in its current
 			// phase is C09's disconnect-returns rule
+		case "ping":
+			if op.CtxTimeoutUs > 0 {
+				dl := invT + op.CtxTimeoutUs*1000
+				if o.ret < 0 || o.ret >= ix.end() || ix.tr[o.ret].T > dl {
+					add("returns", "Ping through the reconnecting client did not return by its context's deadline", map[string]string{"call": "reconnect.Ping"})
+				}
+			}
 		case "publish", "subscribe", "unsubscribe":
 			// requests to the retrying client are queued and return at once; one that
 			// has not returned when the run is judged is blocked for good
